@@ -20,6 +20,7 @@ void *vp_heap_alloc(uint64_t n) { return malloc(n ? n : 1); }
 void vp_heap_free(void *p) { free(p); }
 #else
 /* constant-capacity block, logical size in a side table (see vp_rt.h) */
+const void *vp_ro_base[VP_MAX_RO]; uint64_t vp_ro_len[VP_MAX_RO]; int vp_ro_n;
 const void *vp_blk_base[VP_MAX_BLOCKS]; uint64_t vp_blk_len[VP_MAX_BLOCKS]; int vp_blk_n;
 void *vp_heap_alloc(uint64_t n) {
   VP_ASSERT(n <= VP_HEAP_CAP, "oversized allocation request");
@@ -105,12 +106,12 @@ uint8_t *vpx__ZNKSt11logic_error4whatEv(void *t) { return 0; }
 #define VP_MEMOPS(W, T)                                                                              \
   void vp_memcpy_u##W(T *d, const T *s, uint64_t n) {                                                \
     VP_ASSERT(n % sizeof(T) == 0, "memcpy length is a multiple of the element size");               \
-    if (n) { VP_ACCESS(d, n); VP_ACCESS(s, n); }                                                     \
+    if (n) { VP_ACCESS_W(d, n); VP_ACCESS(s, n); }                                                   \
     for (uint64_t i = 0; i < n / sizeof(T); i++) d[i] = s[i];                                        \
   }                                                                                                  \
   void vp_memmove_u##W(T *d, const T *s, uint64_t n) {                                               \
     VP_ASSERT(n % sizeof(T) == 0, "memmove length is a multiple of the element size");              \
-    if (n) { VP_ACCESS(d, n); VP_ACCESS(s, n); }                                                     \
+    if (n) { VP_ACCESS_W(d, n); VP_ACCESS(s, n); }                                                   \
     uint64_t k = n / sizeof(T);                                                                      \
     if (d == s) return;                                                                              \
     if (VP_BACKWARD(d, s)) { for (uint64_t i = k; i > 0; i--) d[i - 1] = s[i - 1]; }                 \
@@ -118,7 +119,7 @@ uint8_t *vpx__ZNKSt11logic_error4whatEv(void *t) { return 0; }
   }                                                                                                  \
   void vp_memset_u##W(T *d, uint8_t c, uint64_t n) {                                                 \
     VP_ASSERT(n % sizeof(T) == 0, "memset length is a multiple of the element size");               \
-    if (n) { VP_ACCESS(d, n); }                                                                      \
+    if (n) { VP_ACCESS_W(d, n); }                                                                    \
     T v = 0; for (unsigned b = 0; b < sizeof(T); b++) v = (T)((v << 8) | c);                         \
     for (uint64_t i = 0; i < n / sizeof(T); i++) d[i] = v;                                           \
   }
@@ -126,3 +127,9 @@ VP_MEMOPS(8, uint8_t)
 VP_MEMOPS(16, uint16_t)
 VP_MEMOPS(32, uint32_t)
 VP_MEMOPS(64, uint64_t)
+
+/* one-time initialisation of function-local statics (Itanium ABI guards) and at-exit registration */
+uint32_t vpx___cxa_guard_acquire(uint64_t *g) { if (*(uint8_t *)g) return 0; return 1; }
+void vpx___cxa_guard_release(uint64_t *g) { *(uint8_t *)g = 1; }
+void vpx___cxa_guard_abort(uint64_t *g) { (void)g; }
+uint32_t vpx___cxa_atexit(void *f, void *a, void *d) { (void)f; (void)a; (void)d; return 0; }
